@@ -11,3 +11,263 @@ Proof.
   - rewrite Nat.ltb_lt. split; [intro H; split; [reflexivity|exact H] | intros [_ H]; exact H].
   - split; [discriminate | intros [H _]; discriminate].
 Qed.
+
+(* ---------------------------------------------------------------------- *)
+(* What a parsing function may return once the input is exhausted inside an
+   open statement: success having consumed everything, an Incomplete error,
+   or out of fuel.  [endp] says "consumed everything" for the value type. *)
+Definition eof_ok {A} (endp : A -> Prop) (x : pres A) : Prop :=
+  match x with POk v => endp v | PErr _ _ i => i = true | PFuel => True end.
+
+Definition end_l (v : list token) : Prop := v = [].
+Definition end_lb (v : list token * bool) : Prop := fst v = [].
+(* option results: None = nothing found, legitimate only if the input was empty *)
+Definition end_o (ts : list token) (v : option (list token)) : Prop :=
+  match v with Some x => x = [] | None => ts = [] end.
+Definition end_ob (ts : list token) (v : option (list token * bool)) : Prop :=
+  match v with Some (x, _) => x = [] | None => ts = [] end.
+
+Lemma eof_bind : forall A B (ea : A -> Prop) (eb : B -> Prop) (x : pres A) (k : A -> pres B),
+  eof_ok ea x -> (forall a, ea a -> eof_ok eb (k a)) -> eof_ok eb (bind x k).
+Proof. intros A B ea eb x k H K. destruct x; simpl in *; auto. Qed.
+
+Lemma eof_all : forall px fuel,
+  (forall o q stops ge any, eof_ok end_lb (stmts px fuel o q stops ge any [])) /\
+  (forall o q re bc, eof_ok (end_ob []) (get_stmt px fuel (S o) q re bc [])) /\
+  (forall o q re bc, eof_ok (end_ob []) (and_or px fuel (S o) q re bc [])) /\
+  (forall o q ng bc sp, eof_ok (end_o []) (stmt_pipe px fuel (S o) q ng bc sp [])) /\
+  (forall o q bc, eof_ok (end_o []) (pipe_loop px fuel (S o) q bc [])) /\
+  (forall o q lpos stops, eof_ok end_l (follow_stmts px fuel (S o) q lpos stops [])) /\
+  (forall o q t, eof_ok end_l (block px fuel (S o) q [t])) /\
+  (forall o t, eof_ok end_l (subshell px fuel (S o) [t])) /\
+  (forall o q t, eof_ok end_l (if_clause px fuel (S o) q [t])) /\
+  (forall o q ipos, eof_ok end_l (elif_loop px fuel (S o) q ipos [])) /\
+  (forall o q t, eof_ok end_l (while_clause px fuel (S o) q [t])) /\
+  (forall o q t, eof_ok end_l (for_clause px fuel (S o) q [t])) /\
+  (forall o q t, eof_ok end_l (case_clause px fuel (S o) q [t])) /\
+  (forall o prev, eof_ok end_l (case_items px fuel (S o) prev [])) /\
+  (forall o q npos, eof_ok end_l (func_decl px fuel (S o) q npos [])).
+Proof.
+  intros px fuel. induction fuel as [|f IH].
+  - repeat apply conj; intros; exact I.
+  - destruct IH as (Istmts & Iget & Iandor & Ipipe & Iploop & Ifollow & Iblock & Isub & Iif & Ielif & Iwhile & Ifor & Icase & Iitems & Ifunc).
+    repeat apply conj; intros.
+    + (* stmts *) simpl. reflexivity.
+    + (* get_stmt *) simpl. eapply eof_bind; [apply Ipipe|].
+      intros [x|] E; simpl in E; subst; [apply Iandor | reflexivity].
+    + (* and_or *) simpl. destruct re; reflexivity.
+    + (* stmt_pipe *) simpl. destruct f; simpl; auto.
+    + (* pipe_loop *) simpl. reflexivity.
+    + (* follow_stmts *) simpl. eapply eof_bind; [apply Istmts|].
+      intros [x any] E. unfold end_lb in E. simpl in E. subst. destruct any; simpl; reflexivity.
+    + (* block *) simpl. eapply eof_bind; [apply Ifollow|]. intros a E. unfold end_l in E. subst. reflexivity.
+    + (* subshell *) simpl. eapply eof_bind; [apply Ifollow|]. intros a E. unfold end_l in E. subst. reflexivity.
+    + (* if *) simpl. eapply eof_bind; [apply Ifollow|]. intros a E. unfold end_l in E. subst. reflexivity.
+    + (* elif_loop *) simpl. reflexivity.
+    + (* while *) simpl. eapply eof_bind; [apply Ifollow|]. intros a E. unfold end_l in E. subst. reflexivity.
+    + (* for *) simpl. reflexivity.
+    + (* case *) simpl. reflexivity.
+    + (* case_items *) simpl. reflexivity.
+    + (* func_decl *) simpl. eapply eof_bind; [apply Iget|].
+      intros [[x b]|] E; simpl in E; subst; reflexivity.
+Qed.
+
+(* ---------------------------------------------------------------------- *)
+(* Prefix lemmas: the run on ts ++ r versus the run on ts *)
+Arguments do_redirect : simpl never.
+Section Prefix.
+  Variable r : list token.   (* what follows the cut *)
+
+  (* relation between the result on [ts ++ r] (full) and on [ts] (pre):
+     when the full run succeeds, the prefix run either went in lockstep and
+     stopped at the same place strictly inside ts ([lock]), or it reached the end
+     of ts: success with everything consumed, Incomplete error, or out of fuel *)
+  Definition pre_g {A} (endp : A -> Prop) (lock : A -> A -> Prop) (full pre : pres A) : Prop :=
+    match full with
+    | POk v => (exists v', pre = POk v' /\ lock v v') \/ eof_ok endp pre
+    | _ => True
+    end.
+
+  Definition lock_l (v v' : list token) : Prop := v' <> [] /\ v = v' ++ r.
+  Definition lock_lb (v v' : list token * bool) : Prop :=
+    fst v' <> [] /\ fst v = fst v' ++ r /\ snd v = snd v'.
+  Definition lock_o (v v' : option (list token)) : Prop :=
+    match v, v' with
+    | None, None => True
+    | Some x, Some x' => lock_l x x'
+    | _, _ => False
+    end.
+  Definition lock_ob (v v' : option (list token * bool)) : Prop :=
+    match v, v' with
+    | None, None => True
+    | Some x, Some x' => lock_lb x x'
+    | _, _ => False
+    end.
+
+  Lemma pre_g_eof : forall A (e : A -> Prop) l full pre, eof_ok e pre -> pre_g e l full pre.
+  Proof. intros. destruct full; simpl; auto. Qed.
+
+  Lemma pre_g_bind : forall A B (ea : A -> Prop) la (eb : B -> Prop) lb (full pre : pres A) (kf kp : A -> pres B),
+    pre_g ea la full pre ->
+    (forall v v', la v v' -> pre_g eb lb (kf v) (kp v')) ->
+    (forall a, ea a -> eof_ok eb (kp a)) ->
+    pre_g eb lb (bind full kf) (bind pre kp).
+  Proof.
+    intros A B ea la eb lb full pre kf kp H K E.
+    destruct full as [v| |]; simpl in *; auto.
+    destruct H as [(v' & -> & L)|H].
+    - simpl. apply K; assumption.
+    - apply pre_g_eof. eapply eof_bind; eauto.
+  Qed.
+
+  Lemma get_word_app : forall t ts, get_word ((t :: ts) ++ r) =
+    match get_word (t :: ts) with Some x => Some (x ++ r) | None => None end.
+  Proof. intros t ts. simpl. destruct (is_litword t); [reflexivity|]. destruct t; reflexivity. Qed.
+
+  Lemma get_lit_app : forall t ts, get_lit ((t :: ts) ++ r) =
+    match get_lit (t :: ts) with Some x => Some (x ++ r) | None => None end.
+  Proof. intros t ts. simpl. destruct (is_litword t); [reflexivity|]. destruct t; reflexivity. Qed.
+
+  Notation pre_l := (pre_g end_l lock_l).
+
+  Lemma lock_l_cons : forall t ts, lock_l ((t :: ts) ++ r) (t :: ts).
+  Proof. intros. split; [discriminate|reflexivity]. Qed.
+
+  Lemma pre_l_same : forall t ts, pre_l (POk ((t :: ts) ++ r)) (POk (t :: ts)).
+  Proof. intros. left. eexists. split; [reflexivity|apply lock_l_cons]. Qed.
+
+  (* a result that is the same suffix-extended list, possibly empty *)
+  Lemma pre_l_any : forall x, pre_l (POk (x ++ r)) (POk x).
+  Proof. intros [|t x]; [right; reflexivity | apply pre_l_same]. Qed.
+
+  Lemma pre_do_redirect : forall o t ts,
+    pre_l (do_redirect (S o) ((t :: ts) ++ r)) (do_redirect (S o) (t :: ts)).
+  Proof.
+    intros o t ts. unfold do_redirect. simpl app. destruct ts as [|t2 ts].
+    - apply pre_g_eof. reflexivity.
+    - change (t2 :: ts ++ r) with ((t2 :: ts) ++ r). rewrite get_word_app.
+      destruct (get_word (t2 :: ts)) as [x|]; [apply pre_l_any | exact I].
+  Qed.
+
+  Lemma redirs_S : forall f o ts, redirs (S f) o ts =
+    if peek_redir ts then bind (do_redirect o ts) (fun x => redirs f o x) else POk ts.
+  Proof. reflexivity. Qed.
+
+  Lemma redirs_nil : forall f o, eof_ok end_l (redirs f o []).
+  Proof. intros [|f] o; simpl; [exact I | reflexivity]. Qed.
+
+  Lemma pre_redirs : forall fuel o ts,
+    pre_l (redirs fuel (S o) (ts ++ r)) (redirs fuel (S o) ts).
+  Proof.
+    induction fuel as [|f IH]; intros o ts; [exact I|].
+    destruct ts as [|t ts]; [apply pre_g_eof; reflexivity|].
+    rewrite !redirs_S. change (peek_redir ((t :: ts) ++ r)) with (peek_redir (t :: ts)).
+    destruct (peek_redir (t :: ts)); [|apply pre_l_same].
+    eapply pre_g_bind; [apply pre_do_redirect | |].
+    - intros v v' [Hne ->]. apply IH.
+    - intros a ->. apply redirs_nil.
+  Qed.
+
+  Lemma unexpected_is_err : forall A px o first ts, exists c p i, @unexpected_in_call A px o first ts = PErr c p i.
+  Proof.
+    intros. unfold unexpected_in_call, lerr, perr. destruct first as [a|]; [destruct (px && is_compound_kw a)|]; eauto.
+  Qed.
+
+  Lemma call_loop_nil : forall px f o q first, eof_ok end_l (call_loop px f o q first []).
+  Proof. intros px [|f] o q first; simpl; [exact I | reflexivity]. Qed.
+
+  Lemma pre_call_loop : forall px fuel o q first ts,
+    pre_l (call_loop px fuel (S o) q first (ts ++ r)) (call_loop px fuel (S o) q first ts).
+  Proof.
+    induction fuel as [|f IH]; intros o q first ts; [exact I|].
+    destruct ts as [|t ts]; [apply pre_g_eof; reflexivity|].
+    simpl app. simpl call_loop.
+    destruct (is_litword t); [apply IH|].
+    assert (U : forall x, pre_l (@unexpected_in_call (list token) px (S o) first x) (unexpected_in_call px (S o) first (t :: ts))).
+    { intro x. destruct (unexpected_is_err (list token) px (S o) first x) as (c & p & i & ->). exact I. }
+    assert (R : forall t0, pre_l (bind (do_redirect (S o) ((t0 :: ts) ++ r)) (fun r' => call_loop px f (S o) q first r'))
+                                 (bind (do_redirect (S o) (t0 :: ts)) (fun r' => call_loop px f (S o) q first r'))).
+    { intro t0. eapply pre_g_bind; [apply (pre_do_redirect o t0 ts) | |].
+      - intros v v' [Hne ->]. apply IH.
+      - intros a ->. apply call_loop_nil. }
+    destruct t; try apply IH; try apply (pre_l_same _ ts); try apply U; try apply R.
+    destruct q; try apply (pre_l_same _ ts); apply U.
+  Qed.
+
+  Lemma pre_got_newl : forall y, pre_l (POk (got_newl (y ++ r))) (POk (got_newl y)).
+  Proof.
+    intros [|t x]; [right; reflexivity|].
+    destruct t; try apply (pre_l_same _ x). simpl. apply pre_l_any.
+  Qed.
+
+  Lemma word_list_S : forall f o ts, word_list (S f) o ts =
+    if stop_token ts then POk ts
+    else match get_word ts with Some x => word_list f o x | None => perr o ts EWordList (length ts) end.
+  Proof. reflexivity. Qed.
+
+  Lemma pre_word_list : forall fuel o ts,
+    pre_l (word_list fuel (S o) (ts ++ r)) (word_list fuel (S o) ts).
+  Proof.
+    induction fuel as [|f IH]; intros o ts; [exact I|].
+    destruct ts as [|t ts]; [apply pre_g_eof; reflexivity|].
+    rewrite !word_list_S. change (stop_token ((t :: ts) ++ r)) with (stop_token (t :: ts)).
+    destruct (stop_token (t :: ts)); [apply pre_l_same|].
+    rewrite get_word_app. destruct (get_word (t :: ts)) as [x|]; [apply IH | exact I].
+  Qed.
+
+  Lemma pats_loop_S : forall f o prev ts, pats_loop (S f) o prev ts =
+    match ts with
+    | [] => POk []
+    | _ => match get_word ts with
+           | None => perr o ts ECasePatWords (cur_pos prev ts)
+           | Some x => match x with
+                       | TRparen :: _ => POk x
+                       | TPipe :: r2 => pats_loop f o (length x) r2
+                       | _ => perr o x ECasePatSep (cur_pos (length ts) x)
+                       end
+           end
+    end.
+  Proof. reflexivity. Qed.
+
+  Lemma pre_pats_loop : forall fuel o prev prev' ts,
+    pre_l (pats_loop fuel (S o) prev (ts ++ r)) (pats_loop fuel (S o) prev' ts).
+  Proof.
+    induction fuel as [|f IH]; intros o prev prev' ts; [exact I|].
+    destruct ts as [|t ts]; [apply pre_g_eof; reflexivity|].
+    rewrite !pats_loop_S. simpl app at 1.
+    change (t :: ts ++ r) with ((t :: ts) ++ r). rewrite get_word_app.
+    destruct (get_word (t :: ts)) as [x|]; [|exact I].
+    destruct x as [|t1 x]; [apply pre_g_eof; reflexivity|].
+    simpl app. destruct t1; try exact I.
+    - apply IH.
+    - apply (pre_l_same TRparen x).
+  Qed.
+
+  Lemma word_list_nil : forall f o, eof_ok end_l (word_list f o []).
+  Proof. intros [|f] o; simpl; [exact I|reflexivity]. Qed.
+
+  Lemma pre_word_iter : forall fuel o fpos fpos' ts,
+    pre_l (word_iter fuel (S o) fpos (ts ++ r)) (word_iter fuel (S o) fpos' ts).
+  Proof.
+    intros fuel o fpos fpos' ts. unfold word_iter.
+    destruct ts as [|t ts]; [apply pre_g_eof; reflexivity|].
+    rewrite get_lit_app. destruct (get_lit (t :: ts)) as [x|]; [|exact I].
+    assert (W : forall y, pre_l
+      (bind (word_list fuel (S o) (y ++ r)) (fun r4 => let r5 := match r4 with TSemi :: x => x | _ => r4 end in POk (got_newl r5)))
+      (bind (word_list fuel (S o) y) (fun r4 => let r5 := match r4 with TSemi :: x => x | _ => r4 end in POk (got_newl r5)))).
+    { intro y. eapply pre_g_bind; [apply pre_word_list| |].
+      - intros v v' [Hne ->]. destruct v' as [|t1 v']; [congruence|]. cbv zeta.
+        destruct t1; try apply (pre_got_newl (_ :: v')). simpl app. apply pre_got_newl.
+      - intros a ->. reflexivity. }
+    destruct x as [|t1 x]; [apply pre_g_eof; reflexivity|].
+    simpl app.
+    destruct t1; try exact I.
+    - (* TDo *) apply (pre_l_same TDo x).
+    - (* TIn *) apply W.
+    - (* TSemi *) apply pre_got_newl.
+    - (* TNewl *) simpl got_newl. destruct x as [|t2 x]; [apply pre_g_eof; reflexivity|].
+      simpl app. destruct t2; try exact I.
+      + apply (pre_l_same TDo x).
+      + apply W.
+  Qed.
+End Prefix.
